@@ -209,6 +209,23 @@ def check(run):
     run.floor("C16.R3", 2)
     head_state_definitely_assigned(run)
     run.floor("C16.R4", 3)
+    # R5 the parsers are executable on every dispatch arm: a local that no path has assigned when an arm reads it raises
+    # UnboundLocalError, which is neither HTTPException nor ValueError and so escapes parseMessage and the service loop
+    from ..names import definite_unbound_locals, unbound_names
+    ix = run.ix
+    scope = []
+    for mod, cname in ((httpx.HS, "Requestant"), (httpx.HC, "Respondent"), ("hio.core.http.httping", "Parsent")):
+        scope.extend(f for _, f in sorted(ix.cls(mod, cname).methods.items()))
+    scope.extend(f for fq, f in sorted(ix.functions.items()) if f.module.name == "hio.core.http.httping" and f.cls is None)
+    for f in scope:
+        bad = [(nm, node, "is bound nowhere (NameError)") for nm, node in unbound_names(ix, f)]
+        bad += [(nm, node, "is read on an arm that no path reaches with it assigned (UnboundLocalError)") for nm, node in definite_unbound_locals(run, f)]
+        for nm, node, why in bad:
+            run.ob("C16.R5", "%s:unbound:%s" % (f.fq, nm), False, run.site(f, node),
+                   "`%s` %s: a peer whose message takes this arm makes the parser, and with it service(), raise" % (nm, why))
+        if not bad:
+            run.ob("C16.R5", "%s:names-bound" % f.fq, True, run.site(f))
+    run.floor("C16.R5", 25)
 
 
 def _chain_arms(node):
@@ -281,6 +298,7 @@ def head_state_definitely_assigned(run):
 
 
 MUTANTS = [
+    Mutant("persisted-lookup-only-on-one-arm", httpx.HS, "Requestant.checkPersisted", "        connection = self.headers.get(\"connection\")  # check connection header\n", "", {"C16.R5"}),
     Mutant("version-unset-for-other-minor", HS, "Requestant.parseHead", "        else:\n            self.version = (1, 1)", "        elif version.startswith(u\"HTTP/1.1\"):\n            self.version = (1, 1)", {"C16.R4"}),
     Mutant("narrow-parsemessage-handler", HT, "Parsent.parseMessage", "except (HTTPException, ValueError) as ex:  # malformed message bytes", "except BadStatusLine as ex:", {"C16.R1"}, canary=True),
     Mutant("environ-int-unguarded", HS, "Server.buildEnviron", "environ['CONTENT_LENGTH'] = str(requestant.length)", "environ['CONTENT_LENGTH'] = int(requestant.headers['content-length'])", {"C16.R1"}, canary=True),
